@@ -126,15 +126,15 @@ CHECKS["C25"] = ("model_checking",
     "Trusted: dataset shape catalogue (leaf space sampled); pydicom's codec; 300 configurations in quick with all chunked-mode big/VR-mix ones kept.", "§6 C25", "store")
 
 _PAIR_NOTE = ("Trusted: loopback TCP; timeouts 0.8 s; seeded delays (0-3 ms) at every notification point perturb the interleaving (sampling, not enumeration, of the real schedules); "
-              "the pair model has one user thread per node - a second user thread on the requestor exists only in the scenario runs; the recorder orders notifications by entry into events.trigger.")
+              "counterexamples of the pair model with a second user thread are not replayed step by step (the stepped replay drives one user thread) but must match crash signatures the scenario runs list; the recorder orders notifications by entry into events.trigger.")
 CHECKS["C06"] = ("model_checking",
     "TLA+ Assoc spec instantiated as a requestor/acceptor pair joined by FIFO channels (user release/abort/echo, acceptor-side release/abort, accept/reject, one timeout) model-checked by TLC for "
     "C06_OneTerminal / C06_OneFlag / C06_Agreement / C06_NoLeak on every interleaving (the variant in which abort() and the reactor's release branch are not atomic - the code takes no lock - is refuted: the open race finding); every counterexample is replayed on the real threads of the node concerned (S2C by projection); the user scripts of "
     "Scenario.tla are run on two real AEs and the recorded notification histories / pair outcomes judged by the Trace_Notify and Trace_Pair specs (C2S)",
-    "TLC: all interleavings of provider loop halves, association reactor steps and user calls of both nodes (about 540k distinct states) modulo the C05 crash signatures. Real code: 890 (quick) / 2500 (thorough) scenario runs "
+    "TLC: all interleavings of provider loop halves, association reactor steps and user calls of both nodes (about 720k distinct states with one user thread per node, several million with a second user thread on the requestor) modulo the C05 crash signatures. Real code: about 1040 (quick) / 5600 (thorough) scenario runs "
     "(requestor operations x ending incl. two terminal calls in sequence x acceptor handler behaviour incl. abort/release inside a handler x second-thread abort/release on either side at three moments x rejection): "
     "termination in time, no thread left, OS sockets closed, one outcome flag, one terminal notification, agreement (strict in calm scenarios).",
-    _PAIR_NOTE, "§6 C06", "pair")
+    _PAIR_NOTE, "§0.2, §6 C06", "pair")
 CHECKS["C27"] = ("model_checking",
     "TLA+ Trace_Notify observer over ULTable (the PS3.8 transition table of C04): the notification history recorded from every association of the Scenario.tla user scripts run on two real AEs is validated by TLC "
     "(C2S): each EVT_FSM_TRANSITION is a table cell and chains with the previous one, open first/once, close once/last, established once and before released/aborted, PDU notifications paired with byte-level notifications and with what the peer's transport read",
